@@ -51,6 +51,10 @@ def _progs(tier: str) -> List[Dict[str, Any]]:
     for n, k in enumerate(singles):
         add([["op", k]], "x", ["sum", "two_outputs", "tensor"][n % 3])
         add([["op", "linear:nn"], ["op", k], ["op", "neg"]], ["x", "emb_pos", "emb"][n % 3], "two_outputs" if n % 2 else "mse")
+    # TorchDynamo names nodes after local variables: a compute node called `output`
+    for n, k in enumerate(["linear:nn", "neg", "masked", "reshape", "rotate_half"]):
+        out.append({"prog": {"items": [["op", k]], "first": "x", "sink": ["sum", "two_outputs", "tensor"][n % 3], "out_name": "output"},
+                    "backward": True})
     for a, b in itertools.product(["rotate_half", "reshape", "masked", "index_rows"], ["neg", "stack_mean", "gelu:F"]):
         add([["op", "linear:nn"], ["res", [["op", a], ["op", b]], "skip_first"], ["op", "rotate_half"]], "x", "two_outputs")
         add([["op", a], ["op", b]], "x", "sum", False)
